@@ -26,7 +26,14 @@ async def main():
     w1.close_handle()                       # the peer's first attempt is abandoned …
     w2 = blob.get_blob_writer(*peer)        # … and it asks again in the same loop pass
     await asyncio.sleep(0)                  # writer 1's done-callbacks run now
-    w3 = blob.get_blob_writer(*peer)        # duplicate guard no longer sees writer 2
+    try:
+        w3 = blob.get_blob_writer(*peer)    # duplicate guard no longer sees writer 2
+    except OSError as e:
+        w2.write(data)
+        await blob.verified.wait()
+        print(f"third writer refused while the second is open ({e}); blob verified={blob.get_is_verified()}")
+        print("not reproduced (F18)")
+        return
     w2.write(data)                          # writer 2 delivers a complete correct copy
     await blob.verified.wait()
     await asyncio.sleep(0)
